@@ -50,7 +50,17 @@ fn c12_now_reads_realtime_then_monotonic() {
     unsafe {
         FAIL_AT = fail_at;
     }
-    let c = ClockErrorBound::default();
+    // any record: the wrapper must read both clocks whatever the record says
+    let st: u8 = kani::any();
+    kani::assume(st < 3);
+    let c = ClockErrorBound {
+        as_of: libc::timespec { tv_sec: kani::any(), tv_nsec: kani::any() },
+        void_after: libc::timespec { tv_sec: kani::any(), tv_nsec: kani::any() },
+        bound_nsec: kani::any(),
+        max_drift_ppb: kani::any(),
+        reserved1: kani::any(),
+        clock_status: match st { 0 => ClockStatus::Unknown, 1 => ClockStatus::Synchronized, _ => ClockStatus::FreeRunning },
+    };
     let r = c.now();
     unsafe {
         kani::assert(FIRST_ID == CLOCK_REALTIME, "C12.now.first_read_is_realtime");
@@ -66,6 +76,7 @@ fn c12_now_reads_realtime_then_monotonic() {
             kani::assert(COMPUTE_CALLS == 0 && r.is_err(), "C14.now.clock_failure_is_an_error_not_an_interval");
         }
     }
+    kani::cover!(fail_at == 0 && st == 0, "C12.cover.ok_unknown_record");
     kani::cover!(fail_at == 0, "C12.cover.ok");
     kani::cover!(fail_at == 2, "C12.cover.second_fails");
 }
